@@ -22,7 +22,8 @@ def run_spec(built, seed, tier, spec):
     i = spec["i"]
     rnd = core.rng_for("c01tree", seed, tier, i)
     t = trees.gen_tree(rnd, nfiles=spec["nfiles"], stmts=(0, 14), structured=spec["structured"], idclass=spec["idclass"],
-                       label="t%d" % i, nearmax_k=spec["k"], missing_cap=spec["cap"])
+                       label="t%d" % i, nearmax_k=spec["k"], missing_cap=spec["cap"], directives=(i % 3 == 0),
+                       complete_prob=0.2 if i % 4 == 1 else 0.0)
     mx = max(t.existing) if t.existing else 0
     use_cache = None
     lock_text = None
